@@ -59,6 +59,19 @@ RotateC(S, n0) ==
       fs == MapLoc(S.feats, LAMBDA t : RotLoc(t, n, L))
   IN WithRes(S, Rot(S.res, n), FInsertAll(<<>>, fs))
 
+\* GenBankFields.Slice (seqio/genbank.go 66-117): references whose base ranges
+\* overlap the window are clipped and re-based, the others are dropped,
+\* references without parsable ranges are kept; then renumbered
+PrintRefInfo(rs) ==
+  "(bases " \o JoinStr([j \in 1..Len(rs) |-> ToString(rs[j][1] + 1) \o " to " \o ToString(rs[j][2])], "; ") \o ")"
+RefsSliceC(refs, a1, b1) ==
+  LET clip(r) == LET ol == SelectSeq(r.ranges, LAMBDA x : a1 < b1 /\ RangeOverlap(x[1], x[2], a1, b1))
+                     cl == [j \in 1..Len(ol) |-> <<IMax(0, ol[j][1] - a1), IMin(b1 - a1, ol[j][2] - a1)>>]
+                 IN [num |-> r.num, info |-> PrintRefInfo(cl), ranged |-> TRUE, ranges |-> cl]
+      kept == SelectSeq([j \in 1..Len(refs) |-> IF refs[j].ranged THEN clip(refs[j]) ELSE refs[j]],
+                        LAMBDA r : ~r.ranged \/ r.ranges # <<>>)
+  IN [j \in 1..Len(kept) |-> [kept[j] EXCEPT !.num = j]]
+
 RECURSIVE SliceC(_, _, _)
 SliceC(S, a, b) ==
   LET L == Len(S.res)
@@ -70,7 +83,7 @@ SliceC(S, a, b) ==
                        LET loc == ExpandLoc(ExpandLoc(keep[j].loc, b1, b1 - L), 0, 0 - a1)
                        IN RawFeat(keep[j], IF keep[j].key = "source" THEN AsComplete(loc) ELSE loc)]
           IN [res |-> SubSeq(S.res, a1 + 1, b1), topo |-> IF S.topo = "na" THEN "na" ELSE "linear",
-              feats |-> fs, refs |-> S.refs,
+              feats |-> fs, refs |-> IF S.topo = "na" THEN S.refs ELSE RefsSliceC(S.refs, a1, b1),
               \* GenBankFields.Slice records the window (refs are clipped there
               \* too; transcribed in GenBank.tla); other metadata has no region
               region |-> IF S.topo = "na" THEN S.region ELSE <<a1, b1>>]
